@@ -218,7 +218,7 @@ def check_c08(case, stats):
 
 
 CHECKS = {'check_c08': check_c08}
-_B = {'quick': 60, 'thorough': 500}
+_B = {'quick': 60, 'thorough': 1500}
 
 
 def shards(tier):
